@@ -68,3 +68,74 @@ pub fn set_timestamp_override(secs: Option<u64>) {
 pub fn timestamp_override() -> Option<u64> {
     TIMESTAMP_SECS.with(|c| *c.borrow())
 }
+
+// -------------------------------------------------------------------------------------------
+// In-memory socket seam
+
+/// Transport-level peer id (32 bytes).
+pub use ant_quic::nat_traversal_api::PeerId as AntPeerId;
+
+/// What the harness provides in place of the QUIC endpoints of a `DualStackNetworkNode`.
+/// Everything above it (`TransportHandle`, dispatcher, `DhtNetworkManager`) is production code.
+#[async_trait::async_trait]
+pub trait VerifSocket: Send + Sync + 'static {
+    /// Transport-level id of this endpoint.
+    fn local_id(&self) -> AntPeerId;
+    /// Dial one of `targets`; returns the remote transport id.
+    async fn connect(&self, targets: &[std::net::SocketAddr]) -> Result<AntPeerId, String>;
+    /// Hand framed bytes for a connected peer (hex transport id) to the wire.
+    async fn send(&self, peer_id: &str, data: &[u8]) -> Result<(), String>;
+    /// Next inbound connection; `None` once the endpoint is shut down.
+    async fn accept(&self) -> Option<(AntPeerId, std::net::SocketAddr)>;
+    /// Close the connection to a peer.
+    async fn disconnect(&self, peer_id: &str);
+    /// Shut the endpoint down.
+    async fn shutdown(&self);
+    /// Receives a clone of the dispatcher's inbound channel (raw frames tagged with the authenticated sender id).
+    fn attach_inbound(&self, tx: tokio::sync::mpsc::Sender<(AntPeerId, Vec<u8>)>);
+    /// Every `TransportHandle::send_message` attempt, before its own checks.
+    fn send_attempt(&self, peer_id: &str, protocol: &str);
+}
+
+thread_local! {
+    static SOCKETS: RefCell<std::collections::HashMap<usize, std::sync::Arc<dyn VerifSocket>>> = RefCell::new(std::collections::HashMap::new());
+}
+
+/// Associate a socket with a `DualStackNetworkNode` (keyed by its address; current thread).
+pub fn register_socket(node_addr: usize, socket: std::sync::Arc<dyn VerifSocket>) {
+    SOCKETS.with(|m| {
+        m.borrow_mut().insert(node_addr, socket);
+    });
+}
+
+/// Socket installed for the `DualStackNetworkNode` at `node_addr`, if any.
+pub fn socket_for(node_addr: usize) -> Option<std::sync::Arc<dyn VerifSocket>> {
+    SOCKETS.with(|m| m.borrow().get(&node_addr).cloned())
+}
+
+/// Forget every registered socket of the current thread (between explorations).
+pub fn clear_sockets() {
+    SOCKETS.with(|m| m.borrow_mut().clear());
+}
+
+/// Serialise a wire frame exactly as `TransportHandle::create_protocol_message` does.
+pub fn frame(protocol: &str, data: Vec<u8>, from: &str, timestamp: u64) -> Vec<u8> {
+    let message = crate::network::WireMessage {
+        protocol: protocol.to_string(),
+        data,
+        from: from.to_string(),
+        timestamp,
+    };
+    postcard::to_stdvec(&message).unwrap_or_default()
+}
+
+/// Decode a wire frame: `(protocol, data, from, timestamp)`.
+pub fn unframe(bytes: &[u8]) -> Option<(String, Vec<u8>, String, u64)> {
+    let m: crate::network::WireMessage = postcard::from_bytes(bytes).ok()?;
+    Some((m.protocol, m.data, m.from, m.timestamp))
+}
+
+/// `network::parse_protocol_message` (crate-private) for direct input sweeps.
+pub fn parse_protocol_message(bytes: &[u8], source: &str) -> Option<crate::network::P2PEvent> {
+    crate::network::parse_protocol_message(bytes, source)
+}
